@@ -10,9 +10,10 @@ import Driver.C03
 import Driver.Zone
 import Driver.Tzdb
 import Driver.Fmt
+import Driver.Parse
 namespace Driver
 
-def handlers : List Handler := [handleC01, handleC07, handleC10, handleC09, handleC04, handleC05, handleC17, handleC08, handleC03, handleZone, handleFmt]
+def handlers : List Handler := [handleC01, handleC07, handleC10, handleC09, handleC04, handleC05, handleC17, handleC08, handleC03, handleZone, handleFmt, handleParse]
 
 def dispatch (tbl : ZoneTable) (names : Std.HashMap String Unit) (line : String) : String :=
   let toks := (line.trimAscii.toString.splitOn " ").filter (· ≠ "")
